@@ -454,6 +454,16 @@ func (u *Unit) evalGhostCall(call *ast.CallExpr, f *types.Func, st *State) []Val
 		}
 		name := strings.Trim(lit.Value, "\"`")
 		var alts []string
+		if strings.HasPrefix(name, "loop#") {
+			// reached("loop#N"): the N-th loop statement (of the expansion) has been entered
+			var k int
+			fmt.Sscanf(name, "loop#%d", &k)
+			if k >= 1 && k <= len(u.fi.loops) {
+				if t, ok := st.reached[u.fi.loops[k-1]]; ok {
+					alts = append(alts, t)
+				}
+			}
+		}
 		for _, sn := range findCallSites(u.prog, u.fi, name) {
 			if site, ok := sn.(*ast.CallExpr); ok {
 				if t, ok := st.reached[site]; ok {
